@@ -8,7 +8,8 @@
     appended).  Quantifiers: every program [ops] (any number of handlers, any interleaving), every
     delivery [d] (subscriber object, topic, context keys already present, any handler outcome, any
     publisher behaviour). *)
-From WM Require Import Base.Prelude Message.Model Handler.RouterHandle Router.Wiring Router.WiringSpec Router.WiringProofs.
+From WM Require Import Base.Prelude Message.Model Handler.RouterHandle Router.Wiring Router.WiringSpec Router.WiringProofs
+  Router.Life Router.LifeProofs Corr.C08 Router.LifeAccept.
 
 (** For EVERY program (incl. Handler.Stop, re-added names, failing decorator constructors): a message
     handed to subscriber object [d_sub d] on topic [d_topic d] is processed by handler [n] iff the
@@ -98,6 +99,41 @@ Proof. exact c08_model_accepted. Qed.
 Theorem C08_model_accepted_all : forall ops, c08_monitor_st ops (run rinit ops) = true.
 Proof. exact c08_model_accepted_st. Qed.
 
+(** ** Run, plugins, Handlers() (Router/Life.v): programs of plugin registrations, Handlers() calls and
+    Wiring operations; the first start-like operation is Run *)
+(** a Router program amounts to the Wiring program [effective_ops] (its Wiring operations, minus the Run
+    that a plugin error aborted): same registration state, same deliveries; and what Run calls is the
+    plugins registered before it, in order, up to and including the first that returns an error *)
+Theorem C08_router_program_is_wiring : forall pops,
+  core (pexec pinit pops) = exec rinit (effective_ops pops)
+  /\ del_obs (prun pinit pops) = run rinit (effective_ops pops)
+  /\ plug_obs (prun pinit pops) = spec_plug [] pops.
+Proof. exact life_is_wiring. Qed.
+(** plugins are called by at most one operation of a program (Run) — never by a later RunHandlers, and a
+    plugin added after Run never runs *)
+Theorem C08_plugins_once : forall pops, length (plug_obs (prun pinit pops)) <= 1.
+Proof. exact plugins_once. Qed.
+(** a plugin error aborts Run: no handler is started by it, isRunning stays set *)
+Theorem C08_plugin_error_aborts_run : forall c P o, is_startlike o = true -> snd (upto_fail P) = true ->
+  core (fst (pstep (PS c P false) (PCore o))) = c /\ isrun (fst (pstep (PS c P false) (PCore o))) = true.
+Proof. exact plugin_error_aborts. Qed.
+(** plugins run before any handler: before the first start-like operation nobody is started *)
+Theorem C08_plugins_before_handlers : forall pre,
+  forallb (fun o => negb (is_startlike o)) (core_ops pre) = true ->
+  Forall (fun hs => hs_started hs = None) (handlers (core (pexec pinit pre))).
+Proof. exact plugins_before_handlers. Qed.
+(** Handlers() reports the names the registration machine holds at that moment; for every program these
+    are pairwise different and each was added by an AddHandler of the program *)
+Theorem C08_handlers_view : forall pops, name_obs (prun pinit pops) = spec_views [] pops.
+Proof. exact views_spec. Qed.
+Theorem C08_handlers_view_names : forall ops,
+  let ns := map (fun hs => h_name (hs_cfg hs)) (handlers (exec rinit ops)) in
+  NoDup ns /\ forall n, In n ns -> exists h, In (OAddHandler h) ops /\ h_name h = n.
+Proof. exact view_names. Qed.
+(** the acceptor that judges implementation observations of Router programs accepts every model run *)
+Theorem C08_router_program_accepted : forall pops, c08_lviolates (LC pops (prun pinit pops)) = false.
+Proof. exact c08_router_program_accepted. Qed.
+
 Print Assumptions C08_right_function.
 Print Assumptions C08_publish_target.
 Print Assumptions C08_no_publisher_output_nacks.
@@ -107,6 +143,13 @@ Print Assumptions C08_context_values_pinned_refuted.
 Print Assumptions C08_context_pinned_agrees_when_fresh.
 Print Assumptions C08_dispatch_is_spec.
 Print Assumptions C08_model_accepted.
+Print Assumptions C08_router_program_is_wiring.
+Print Assumptions C08_plugins_once.
+Print Assumptions C08_plugin_error_aborts_run.
+Print Assumptions C08_plugins_before_handlers.
+Print Assumptions C08_handlers_view.
+Print Assumptions C08_handlers_view_names.
+Print Assumptions C08_router_program_accepted.
 Print Assumptions C08_nil_publisher_never_closed.
 Print Assumptions C08_nil_publisher_outputs_nacked.
 Print Assumptions C08_nil_publisher_pinned_refuted.
@@ -146,4 +189,13 @@ Proof. reflexivity. Qed.
 Example C08_witness_redelivered_object :
   fn_calls (dispatch (HC 12 1 7 20 PDisabled 0 3) (ST [] [] []) (DL 1 20 (ctx_of exA) (7%N, true) (Ret []) PubAccept))
   = [(3%N, CX 12 ty_disabled 7 20 0)].
+Proof. reflexivity. Qed.
+
+(** plugins 1, 2 (fails), 3: Run calls 1 then 2 and returns; handler A is not started by it (a delivery reaches
+    nobody), the next start-like operation is a RunHandlers: A runs; plugin 3 and the late plugin 4 never run *)
+Example C08_witness_plugins :
+  prun pinit [PAddPlugin 1 false; PAddPlugin 2 true; PAddPlugin 3 false; PCore (OAddHandler exA); PCore OStart;
+              PView; PCore (ODeliver (DL 1 20 cx0 (0%N, false) (Ret []) PubAccept)); PAddPlugin 4 false; PCore OStart;
+              PCore (ODeliver (DL 1 20 cx0 (0%N, false) (Ret []) PubAccept))] =
+  [PPlug [1; 2]%N false; PNames [10%N]; PDel []; PDel [(10%N, [EFn 1 (ctx_of exA); ESettle true])]].
 Proof. reflexivity. Qed.
